@@ -235,3 +235,67 @@ Definition sub_agree (sch : schema) (doc : document) (cfg : config) (sources : l
   | SubRaised, SObsRaised => true
   | _, _ => false
   end.
+
+(* ---------- scheduled runs (C08 C09 C15) ---------- *)
+From TV Require Import Model.Async.
+
+Definition a_execute (sch : schema) (doc : document) (U : usercode) (cfg : config)
+           (opname : option string) (raw : vars) (root : pyval) : option prog :=
+  match select_operation doc opname with
+  | None => None
+  | Some op =>
+      match coerce_variables sch 40 (o_vars op) raw with
+      | Ok (vs, []) => Some (a_execute_operation sch doc vs U cfg op root)
+      | _ => None
+      end
+  end.
+
+Definition sites_perm (a b : list site) : bool := perm_eqb path_eqb a b.
+
+(* the model under the same pick sequence: response, set of started and of finished call sites *)
+Definition sched_agree (sch : schema) (doc : document) (U : usercode) (cfg : config)
+           (opname : option string) (raw : vars) (root : pyval)
+           (picks : list site) (obs : response) (started finished : list site) : bool :=
+  match a_execute sch doc U cfg opname raw root with
+  | None => false
+  | Some p =>
+      match run_sched (resolver U) picks p with
+      | Some (PDone r, ev) =>
+          resp_agree (response_of r ev) obs &&
+          sites_perm (starts_of ev) started && sites_perm (finishes_of ev) finished
+      | _ => false
+      end
+  end.
+
+(* the sequential interpreter of the calculus agrees with the state-passing model *)
+Definition seq_models_agree (sch : schema) (doc : document) (U : usercode) (cfg : config)
+           (opname : option string) (raw : vars) (root : pyval) : bool :=
+  match a_execute sch doc U cfg opname raw root with
+  | None => true
+  | Some p =>
+      let (r, ev) := run_seq (resolver U) p in
+      match response_of r ev, impl_execute sch doc U cfg opname raw root with
+      | OVal a, OVal b => pyval_eqb (r_data a) (r_data b) && perm_eqb gerr_eqb (r_errors a) (r_errors b) &&
+                          perm_eqb call_eqb (r_log a) (r_log b)
+      | OCrash _, OCrash _ => true
+      | _, _ => false
+      end
+  end.
+
+(* C09: in the start/finish log of a mutation, everything of root field i precedes the start of
+   root field i+1 *)
+Fixpoint index_of (k : pkey) (keys : list string) (i : Z) : Z :=
+  match keys with
+  | [] => (-1)%Z
+  | x :: keys' => match k with
+                  | KName n => if String.eqb n x then i else index_of k keys' (i + 1)%Z
+                  | _ => (-1)%Z
+                  end
+  end.
+Fixpoint nondecreasing (l : list Z) : bool :=
+  match l with
+  | a :: ((b :: _) as l') => (a <=? b)%Z && nondecreasing l'
+  | _ => true
+  end.
+Definition serialb (root_keys : list string) (log : list site) : bool :=
+  nondecreasing (map (fun s => match s with k :: _ => index_of k root_keys 0%Z | [] => (-1)%Z end) log).
